@@ -3,7 +3,7 @@
 optionally run the pinned test suite there, run the targeted property's quick check against the scratch tree
 (VERIF_REPO) and record whether it reports a violation. Scratch trees live under /tmp and are removed afterwards.
 
-  tools/mutants.py [--only ID[,ID]] [--tests] [--tier quick] [--runs N]
+  tools/mutants.py [--only ID[,ID|PREFIX-]] [--tests] [--tier quick] [--runs N] [--jobs J --workers W] [--sweep]
 
 Sources of mutants:
   * reverted fix commits (known_findings.json "fixed" entries)            -> id revert-<sha>
@@ -50,40 +50,41 @@ def main():
     ap.add_argument("--tier", default="quick")
     ap.add_argument("--runs", type=int)
     ap.add_argument("--kind", choices=["revert", "patch"])
+    ap.add_argument("--jobs", type=int, default=1, help="mutants processed in parallel")
+    ap.add_argument("--workers", type=int, default=16, help="worker processes per check run")
+    ap.add_argument("--sweep", action="store_true", help="stop each check at the first confirmed violation (no minimisation)")
     a = ap.parse_args()
     results = {}
     resfile = os.path.join(VERIF, "selftest", "mutants.json")
     if os.path.exists(resfile):
         results = json.load(open(resfile))
     only = set(a.only.split(",")) if a.only else None
-    for m in mutants():
-        if only and m["id"] not in only:
-            continue
-        if a.kind and m["kind"] != a.kind:
-            continue
+    todo = [m for m in mutants() if (not only or m["id"] in only or any(m["id"].startswith(o) for o in only if o.endswith("-")))
+            and (not a.kind or m["kind"] == a.kind)]
+
+    def one(m):
         wt = f"/tmp/dst-mut-{m['id']}"
         sh(f"git -C /repo worktree remove --force {wt}")
         shutil.rmtree(wt, ignore_errors=True)
         r = sh(f"git -C /repo worktree add --detach {wt} HEAD")
         if r.returncode:
-            print("worktree failed", r.stderr)
-            continue
+            return m, {"applied": False, "error": "worktree failed " + r.stderr[:200]}
         try:
             if m["kind"] == "revert":
                 r = sh(f"git -C {wt} revert --no-commit {m['commit']}")
             else:
                 r = sh(f"git -C {wt} apply {m['file']}")
             if r.returncode:
-                print(f"{m['id']}: could not apply: {r.stderr[:300]}")
-                results[m["id"]] = {"applied": False, "error": r.stderr[:300]}
-                continue
+                return m, {"applied": False, "error": r.stderr[:300]}
             entry = {"applied": True, "what": m["what"], "checks": {}}
             if a.tests:
                 t = sh(f"cd {wt} && PYTHONPATH={wt} {PY} -m pytest -q -p no:cacheprovider -n 8 tests 2>&1 | tail -3")
                 entry["tests_tail"] = t.stdout[-400:]
             for pid in m["properties"]:
                 t0 = time.time()
-                cmd = f"VERIF_REPO={wt} timeout 900 {PY} {VERIF}/dst/run.py {pid} --tier {a.tier} --no-determinism"
+                # replays/evidence of runs against scratch trees go to the scratch tree, never to /verif
+                cmd = (f"VERIF_REPO={wt} VERIF_OUT={wt}/.verif-out VERIF_WORKERS={a.workers} timeout 900 {PY} {VERIF}/dst/run.py {pid} "
+                       f"--tier {a.tier} --no-determinism" + (" --sweep" if a.sweep else ""))
                 if a.runs:
                     cmd += f" --runs {a.runs}"
                 c = sh(cmd)
@@ -91,18 +92,22 @@ def main():
                 sigs = [ln.strip() for ln in c.stdout.splitlines() if ln.strip().startswith("signature=")]
                 entry["checks"][pid] = {"exit": c.returncode, "violations": len(viol), "signatures": [s[:200] for s in sigs[:4]],
                                         "wall_s": round(time.time() - t0, 1)}
+                if c.returncode not in (0, 1):
+                    entry["checks"][pid]["tail"] = c.stdout[-600:]
                 print(f"{m['id']:28s} {pid}: exit={c.returncode} violations={len(viol)} {sigs[0][:150] if sigs else ''}", flush=True)
-                # the checks write replays/evidence into /verif: restore the evidence afterwards
-            results[m["id"]] = entry
+            return m, entry
         finally:
             sh(f"git -C /repo worktree remove --force {wt}")
             shutil.rmtree(wt, ignore_errors=True)
+
+    from concurrent.futures import ThreadPoolExecutor
+    with ThreadPoolExecutor(max_workers=a.jobs) as ex:
+        for m, entry in ex.map(one, todo):
+            results[m["id"]] = entry
     os.makedirs(os.path.dirname(resfile), exist_ok=True)
     json.dump(results, open(resfile, "w"), indent=1, sort_keys=True)
     caught = sum(1 for v in results.values() if v.get("applied") and any(c["exit"] == 1 for c in v["checks"].values()))
     print(f"mutants caught: {caught}/{sum(1 for v in results.values() if v.get('applied'))}")
-    # evidence files were rewritten by runs against scratch trees: discard those
-    sh(f"git -C {VERIF} checkout -- evidence")
 
 
 if __name__ == "__main__":
